@@ -10,7 +10,7 @@ namespace Gca.Srv
 /-- Values the Go types can hold (fixed-size arrays, fixed-width integers). -/
 def OpWF : Op → Prop
   | .register k _ => k.length = 32
-  | .authorize a => a.WF
+  | .authorize a => a.WF ∧ Srv.isNaN a.lat = false ∧ Srv.isNaN a.lon = false
   | .restart fresh _ => fresh.length = 32
   | .authServer a => a.key.length = 32 ∧ a.sig.length = 64 ∧ a.http < 2^16 ∧ a.tcp < 2^16 ∧ a.udp < 2^16
   | .migrate m => m.equipment.length = 32 ∧ m.newGCA.length = 32 ∧ m.newId < 2^32 ∧ m.sig.length = 64
